@@ -46,6 +46,7 @@ func register(prop string, name string, weight int, fn simFunc) {
 func init() {
 	register("C05", "histories", 7, simC05Histories)
 	register("C05", "cuts", 1, simC05Cuts)
+	register("C05", "knownsets", 1, simC05KnownSets)
 	register("C20", "world", 1, simC20World)
 	register("C03", "sets", 5, simC03Sets)
 	register("C03", "laws", 1, simC03Laws)
